@@ -48,44 +48,45 @@ type TV struct {
 }
 
 type FnVC struct {
-	w            *World
-	e            *Enc
-	fn           *ssa.Function
-	ct           *FuncContract
-	cf           *ContractFile
-	name         string // short name
-	lines        []string
-	vals         map[ssa.Value]Term
-	tuples       map[ssa.Value][]Term
-	blockLit     map[*ssa.BasicBlock]Term
-	memOut       map[*ssa.BasicBlock]*Mem
-	obls         []*Obligation
-	loops        []*Loop
-	loopOf       map[*ssa.BasicBlock]*Loop // header -> loop
-	counters     map[string]int
-	mem0         *Mem
-	params       map[string]TV
-	ghostTy      map[string]types.Type
-	debug        map[*ssa.BasicBlock][]debugBind
-	private      map[*ssa.Alloc]string
-	protected    []*ssa.Alloc
-	panicPoints  []panicPoint
-	pendingSite  string
-	immut        map[*ssa.Alloc]ssa.Value
-	siteOrd      map[ssa.Instruction]int
-	pendingArgs  []TV
-	closures     map[ssa.Value]*ssa.MakeClosure
-	warnings     []string
-	callOrd      map[string]int
-	defers       []*ssa.Defer
-	rangeMap     map[*ssa.Range]string
-	retN         int
-	retLits      []Term
-	matchedSites map[string]bool
-	trustedUsed  map[string]bool
-	curBlock     *ssa.BasicBlock
-	cur          *Mem
-	mode         string // "full" or "safety"
+	w                *World
+	e                *Enc
+	fn               *ssa.Function
+	ct               *FuncContract
+	cf               *ContractFile
+	name             string // short name
+	lines            []string
+	vals             map[ssa.Value]Term
+	tuples           map[ssa.Value][]Term
+	blockLit         map[*ssa.BasicBlock]Term
+	memOut           map[*ssa.BasicBlock]*Mem
+	obls             []*Obligation
+	loops            []*Loop
+	loopOf           map[*ssa.BasicBlock]*Loop // header -> loop
+	counters         map[string]int
+	mem0             *Mem
+	params           map[string]TV
+	ghostTy          map[string]types.Type
+	debug            map[*ssa.BasicBlock][]debugBind
+	private          map[*ssa.Alloc]string
+	protected        []*ssa.Alloc
+	panicPoints      []panicPoint
+	pendingSite      string
+	immut            map[*ssa.Alloc]ssa.Value
+	siteOrd          map[ssa.Instruction]int
+	lastCalleeGhosts map[string]TV
+	pendingArgs      []TV
+	closures         map[ssa.Value]*ssa.MakeClosure
+	warnings         []string
+	callOrd          map[string]int
+	defers           []*ssa.Defer
+	rangeMap         map[*ssa.Range]string
+	retN             int
+	retLits          []Term
+	matchedSites     map[string]bool
+	trustedUsed      map[string]bool
+	curBlock         *ssa.BasicBlock
+	cur              *Mem
+	mode             string // "full" or "safety"
 }
 
 type panicPoint struct {
@@ -992,6 +993,10 @@ func (vc *FnVC) enterLoop(l *Loop, lit Term, entry *Mem) *Mem {
 		t := vc.declare(fmt.Sprintf("%s$%s", phi.Name(), phi.Comment), vc.e.sortOf(phi.Type()))
 		vc.vals[phi] = t
 		vc.assumeWF(t, phi.Type(), m)
+		if phi.Comment == "rangeindex" && isRangeIndexPhi(phi) {
+			// go/ssa's slice-range counter starts at -1 and only ever grows by one: -1 <= rangeindex is inductive by construction
+			vc.assume("true", app("<=", "(- 1)", t))
+		}
 	}
 	// implicit frame invariant: components the contract does not allow to change keep the value of every
 	// object that existed at function entry (checked on entry and on every back edge like any invariant)
@@ -1058,6 +1063,27 @@ func (vc *FnVC) enterLoop(l *Loop, lit Term, entry *Mem) *Mem {
 		vc.warn("loop %d has no invariant (treated as 'true')", l.Ordinal)
 	}
 	return m
+}
+
+func isRangeIndexPhi(phi *ssa.Phi) bool {
+	inc := 0
+	for _, e := range phi.Edges {
+		switch v := e.(type) {
+		case *ssa.Const:
+			if v.Value == nil || v.Int64() != -1 {
+				return false
+			}
+		case *ssa.BinOp:
+			c, ok := v.Y.(*ssa.Const)
+			if v.Op != token.ADD || v.X != ssa.Value(phi) || !ok || c.Value == nil || c.Int64() != 1 {
+				return false
+			}
+			inc++
+		default:
+			return false
+		}
+	}
+	return inc > 0
 }
 
 func (vc *FnVC) keepSetExcept(set map[string]bool) map[string]bool {
